@@ -440,6 +440,9 @@ for _p in ("C13", "C05"):
     PROPS[_p]["verus"].append({"unit": U5, "fns": ["Chitchat::with_chitchat_id_and_seeds", "ClusterState::with_seed_addrs", "Chitchat::self_node_state"]})
 PROPS["C13"]["level_text"] += " The base case is proved too: Chitchat::with_chitchat_id_and_seeds returns a node satisfying the representation invariant (watch value and previous_live_nodes both empty), with live and dead sets empty and only the local node known."
 PROPS["C13"]["assumptions"] = [a.replace("is assumed of the pre-state: the constructor establishes it (both empty) and only update_nodes_liveness writes the two private fields", "is established by the constructor (proved) and re-established by every evaluation (proved, @aux); that nothing else writes the two private fields is read off the source") for a in PROPS["C13"]["assumptions"]]
+PROPS["C18"]["verus"].append({"unit": U5, "fns": ["lemma_sk_step", "lemma_catchup"]})
+PROPS["C18"]["level_text"] += " The replacement clause is proved as well (the supplied iterator is any well-behaved finite iterator, its prophetic content `key_values.remaining()` is the supplied state): whenever the copy is changed, its key set afterwards is exactly the set of supplied keys, for a key supplied (possibly several times) or present before the entry kept is never older than a supplied one, and every entry is the old one or a supplied one verbatim (catchup_keys; two loop invariants over the generic iterator and the set of keys to remove, lemma_catchup)."
+PROPS["C18"]["level_note"] = "All callees are now under contract (set_versioned_value and node_state_mut_or_init through the Entry idiom R15, get_or_create_sampling_window as a stub restating U4). Assumed: `key_values_including_deleted().map(..).collect()` yields the copy's key set (ext_key_set), iterating a HashSet visits each element (ext_set_to_vec), the supplied iterator obeys the iterator laws (premise). The bounded driver c18_catchup still runs the real function over the property's list of copies x supplied states."
 U2_CODEC = ["ChitchatId::serialize", "ChitchatId::serialized_len", "Heartbeat::serialize", "Heartbeat::serialized_len", "NodeDigest::serialize",
             "NodeDigest::serialized_len", "alloc::string::String::serialize", "alloc::string::String::serialized_len",
             "DeletionStatusMutation::serialize", "DeletionStatusMutation::serialized_len", "KeyValueMutationRef::serialize",
